@@ -600,6 +600,9 @@ func (x *Exec) callByContract(fr *Frame, st *State, in ssa.Instruction, fn *ssa.
 	if !ct.HasMod && !ct.Flags["pure"] {
 		x.havocOpenWorld(st)
 	} else {
+		if !ct.Flags["pure"] && (len(ct.Modifies) > 0 || ct.HasMod) {
+			st.growAlloc() // the callee may allocate
+		}
 		x.havocModifies(st, env, ct)
 	}
 	var res []Val
@@ -625,7 +628,7 @@ func (x *Exec) callByContract(fr *Frame, st *State, in ssa.Instruction, fn *ssa.
 		if traceRe.MatchString(cl.Text) {
 			continue // clauses about the callee's own call trace say nothing about the caller's state
 		}
-		t, err := post.EvalBool(cl.Node)
+		t, err := post.EvalAssume(cl.Node)
 		if err != nil {
 			x.abort("ensures of %s at call: %v", ct.Key, err)
 		}
@@ -916,12 +919,16 @@ func (x *Exec) builtinAppend(fr *Frame, st *State, in ssa.Instruction, c *ssa.Ca
 		es := elemSort(as[k])
 		na := x.enc.Fresh("append.elems", es)
 		oldA := Select(arr, dst.Parts[0].T)
-		iv := "i!a"
-		st.assume(Term{fmt.Sprintf("(forall ((%s Int)) (! (=> (and (<= 0 %s) (< %s %s)) (= (select %s (+ %s %s)) (select %s (+ %s %s)))) :pattern ((select %s (+ %s %s)))))",
-			iv, iv, iv, oldLen.S, na.S, noff.S, iv, oldA.S, dst.Parts[1].T.S, iv, na.S, noff.S, iv), SBool})
-		se := srcElem(Term{iv, SInt})[k]
-		st.assume(Term{fmt.Sprintf("(forall ((%s Int)) (! (=> (and (<= 0 %s) (< %s %s)) (= (select %s (+ %s %s %s)) %s)) :pattern ((select %s (+ %s %s %s)))))",
-			iv, iv, iv, addLen.S, na.S, noff.S, oldLen.S, iv, se.S, na.S, noff.S, oldLen.S, iv), SBool})
+		// facts in absolute indices of the new base, single trigger (select na k)
+		kv := Term{"k!a", SInt}
+		lo1 := noff
+		hi1 := app(SInt, "+", noff, oldLen)
+		st.assume(Term{fmt.Sprintf("(forall ((k!a Int)) (! (=> (and (<= %s k!a) (< k!a %s)) (= (select %s k!a) (select %s (+ %s (- k!a %s))))) :pattern ((select %s k!a))))",
+			lo1.S, hi1.S, na.S, oldA.S, dst.Parts[1].T.S, noff.S, na.S), SBool})
+		se := srcElem(app(SInt, "-", kv, hi1))[k]
+		hi2 := app(SInt, "+", hi1, addLen)
+		st.assume(Term{fmt.Sprintf("(forall ((k!a Int)) (! (=> (and (<= %s k!a) (< k!a %s)) (= (select %s k!a) %s)) :pattern ((select %s k!a))))",
+			hi1.S, hi2.S, na.S, se.S, na.S), SBool})
 		st.hset(names[k], Store(arr, nb, na))
 	}
 	st.publish(args[1])
@@ -1074,7 +1081,7 @@ func (x *Exec) linkImplementers(fr *Frame, st *State, recvT types.Type, m *types
 				if traceRe.MatchString(cl.Text) {
 					continue
 				}
-				t, err := env.EvalBool(cl.Node)
+				t, err := env.EvalAssume(cl.Node)
 				if err != nil {
 					continue
 				}
@@ -1100,7 +1107,7 @@ func (x *Exec) reassumeInvs(st *State) {
 		if !ok || v.K != VTerm || v.T.Sort != SRef {
 			continue
 		}
-		tms, _ := x.typeInvTerms(st, v, p.Type(), pkg)
+		tms, _ := x.typeInvTerms(st, v, p.Type(), pkg, true)
 		if len(tms) > 0 {
 			x.enc.trusted["re-entrancy: callees that havoc the heap preserve the type invariants of the receiver/pointer parameters (unexported fields are only reachable through invariant-preserving methods)"] = true
 		}
